@@ -45,8 +45,13 @@ def make_project(n, rnd=None, classes=None):
     return p
 
 
+def _entry(x):
+    # a table entry that is not an integer (e.g. None) can never be right; it is logged as a value no module index has
+    return int(x) if isinstance(x, int) and not isinstance(x, bool) and abs(x) < 2 ** 30 else -999
+
+
 def get_tables(p):
-    return {k: [list(getattr(m, a)) for m in p.modules] for k, a in TABLES}
+    return {k: [[_entry(x) for x in getattr(m, a)] for m in p.modules] for k, a in TABLES}
 
 
 def set_tables(p, t):
